@@ -369,14 +369,19 @@ class Unroll(object):
                     st = _stores(s.body)
                     if any(t in st for t in tnames):
                         ok = False
-                    after = _stores(func.body)
-                    # the loop variable must not be used after the loop (its final binding is dropped)
-                    uses = sum(1 for n in _walk_own(func.body) if isinstance(n, ast.Name) and n.id in tnames
-                               and isinstance(n.ctx, ast.Load))
-                    inside = sum(1 for n in _walk_own(s.body) if isinstance(n, ast.Name) and n.id in tnames
-                                 and isinstance(n.ctx, ast.Load))
-                    if uses != inside or any(after.get(t, 0) != 1 for t in tnames):
-                        ok = False
+                    # the loop variables must not be used outside loops that bind them (their final binding is dropped)
+                    for t in tnames:
+                        uses = sum(1 for n in _walk_own(func.body) if isinstance(n, ast.Name) and n.id == t
+                                   and isinstance(n.ctx, ast.Load))
+                        inside = 0
+                        binds = 0
+                        for lp in _walk_own(func.body):
+                            if isinstance(lp, ast.For) and any(isinstance(x, ast.Name) and x.id == t for x in ast.walk(lp.target)):
+                                binds += sum(1 for x in ast.walk(lp.target) if isinstance(x, ast.Name) and x.id == t)
+                                inside += sum(1 for n in _walk_own(lp.body) if isinstance(n, ast.Name) and n.id == t
+                                              and isinstance(n.ctx, ast.Load))
+                        if uses != inside or _stores(func.body).get(t, 0) != binds:
+                            ok = False
                     if ok and len(tnames) > 1:
                         ok = all(isinstance(x, ast.Tuple) and len(x.elts) == len(tnames) for x in d.elts)
                 if ok:
